@@ -8,6 +8,7 @@ from .. import bits, fields, paths
 from ..core import FUNC, call_attr, calls_in, const, dotted, is_const, kwarg, norm, slice_parts, text, walk_local
 
 EXPLANATION = [
+    "C19.identity: no `is` / `is not` comparison in the anchored modules has an operand declared as a number, byte string or string (identity of equal integers holds only inside CPython's small-integer cache, so such a test is right for values up to 256 and wrong afterwards).",
     'C19.sdp-codecs: every _parse_X / _serialize_X helper pair of bumble.sdp uses the same set of struct item types (byte order, width and signedness of each item) on both sides.',
     'C19.sdp-all: match_services admits a record only under a universal test over the UUIDs of the pattern (all(... any(...)) or an equivalent for/else), never inside the per-UUID loop on the first hit.',
     'C19.sdp-client-state: the channel a reply is written to and the partial response used for continuation are selected by the channel the request arrived on.',
